@@ -7,8 +7,12 @@ def wait_nontrivial(tok, res):
         return tok[2] == "1"            # a delay after an error (fast / slow / window paths)
     if tok[0] == "until":
         return res.startswith("f=")
-    if tok[0] in ("wdwait", "cwwait"):
+    if tok[0] in ("wdwait", "cwwait", "hbwait"):
         return res not in ("unknown",) and not res.startswith("infra")
+    if tok[0] == "hbcfg":
+        return res != "badop"            # a configuration text that went through the real loader
+    if tok[0] == "hbstart":
+        return True
     if tok[0] == "wdstart":
         return "/" in tok[4]            # a scenario with a registration (held or not)
     if tok[0] == "cwstart":
@@ -17,13 +21,23 @@ def wait_nontrivial(tok, res):
 
 
 def wait_class(r):
-    if r in ("ok", "-", "started", "unknown", "nomgr", "hang"):
+    if r in ("ok", "-", "started", "unknown", "nomgr", "hang", "loaderr"):
         return r
+    if r.startswith("eff="):
+        # written-settings scenario: refused | closed for liveness | still open
+        return "hb-" + ("invalid" if r.endswith("invalid") else r.rsplit(" ", 1)[-1].split("=")[0])
+    if r.endswith(" ok") or r.endswith(" invalid"):
+        v = r.split(" ")[0]
+        neg = any(x.startswith("-") for x in v.split("/"))
+        return "cfg-" + r.rsplit(" ", 1)[-1] + ("-off" if neg else "-on")
     if r.startswith("closed") or r.startswith("open") or r.startswith("cut"):
         k = r.split(" ", 1)[0]
-        px = r.rsplit("px=", 1)[-1] if "px=" in r else "-"
+        px = r.rsplit("px=", 1)[-1].split(" ")[0] if "px=" in r else "-"
         if px != "-":
             k += "+reg" + ("" if all(e.endswith(":ok") for e in px.split(",")) else "-HELD")
+        if " lv=" in r:
+            tb = r.rsplit("tb=", 1)[-1]
+            k += "+live" + ("" if tb in ("0/0", "-/-") else "-TABLES")
         return k
     if r.startswith("f="):
         return "loop"
@@ -60,7 +74,13 @@ _T = ["lowB_pos", "step_lo_ge", "step_lo_le_hi", "step_hi_le", "slow_le_max", "s
       "code_clock_strict", "busy_peer_detected_code",
       # Part H: the client's teardown reaches close(doneCh) (Frp/Model/Teardown.lean, Frp/Props/C14Teardown.lean)
       "td_inv_run", "teardown_completes", "teardown_full_fixed", "overflow_stuck", "overflow_reachable",
-      "teardown_full_fails_asis", "overflow_witness", "stop_waits_stuck", "code_teardown_shape", "teardown_code"]
+      "teardown_full_fails_asis", "overflow_witness", "stop_waits_stuck", "code_teardown_shape", "teardown_code",
+      # Part I: a dead session is torn down with LIVE user connections (Frp/Model/SessLive.lean, Frp/Props/C14Live.lean)
+      "base_step_live", "live_refines", "live_teardown_releases", "teardown_reached_live", "close_waits_stuck", "close_waits_witness", "live_conns_survive_witness", "code_close_no_wait", "live_teardown_releases_code",
+      # Part J: the timeout applied is the timeout WRITTEN in the configuration (Frp/Model/HbConf.lean)
+      "complete_keeps_written", "client_cfg_written", "server_cfg_written", "promise_is_completed", "server_promise_is_completed",
+      "written_nonpositive_disables", "code_client_complete", "code_server_complete", "code_hb_writers", "complete_keeps_written_code",
+      "raised_timeout_uninterpreted", "detect_written", "detect_written_code", "raised_timeout_late_witness"]
 
 
 def td_nontrivial(tok, res):
@@ -104,7 +124,22 @@ PROP = {
                 "its last valid ping keeps sending, for longer than timeout + 1 s + slack and at a spacing below the timeout, "
                 "pings with a wrong key, pings the Ping plugin rejects, CloseProxy of unknown names, NewProxy that fail or "
                 "succeed, NatHoleReport -- and a scripted server that stops answering pings but keeps sending ReqWorkConn, "
-                "NewProxyResp, NatHoleResp: the session must be closed within (last valid heartbeat + timeout, + 1 s + slack]); "
+                "NewProxyResp, NatHoleResp: the session must be closed within (last valid heartbeat + timeout, + 1 s + slack]; "
+                "LIVE TRAFFIC at the moment of death: server scenarios (tcpMux off and on: scripted yamux client) in which the "
+                "scripted client is a full peer -- it answers every ReqWorkConn with a work connection and echoes on it -- and "
+                "1-3 users are connected through the proxy registered last (echo seen = bridged) when the peer falls silent "
+                "keeping every socket open, or the control connection is cut: 600 ms after the close the session's run id must "
+                "be gone from the control manager and its names from the proxy manager (Service.VerifSessDump) and a fresh "
+                "session must register the same names and ports; the fate of the user connections is recorded; in a third of these the "
+                "owner closes the proxy (CloseProxy) while its users are connected and goes on with valid heartbeats: the session "
+                "must live until they stop; "
+                "WRITTEN heartbeat settings: configuration texts (toml / json / yaml / legacy ini) with transport.tcpMux on / off / "
+                "not written and heartbeatInterval / heartbeatTimeout over the lattice timeout below, equal to, between one and "
+                "two times, two times and above the interval, negative, not written go through the real loader "
+                "(config.LoadClientConfig / LoadServerConfig: parse + Complete) and the real validation (hbcfg, ~120 per run: the "
+                "loaded values must promise what the written ones do), and 9 of them start a real frpc (client.NewService on what "
+                "the loader returned) against a scripted server (yamux when tcpMux is on) that answers K pings and falls silent: "
+                "closed within (last Pong + WRITTEN timeout, + 1 s + slack], or never when the check is switched off); "
                 "td engine: real frpc with N tcp proxies (1-6, 40-99, 101-180; plain, health-checked on a live / on a dead "
                 "port) against a scripted server that cuts the control connection some ms after each login, the cuts spread "
                 "over every phase of the proxies' check goroutines (initial 500 ms sleep, first round, select): after every "
@@ -112,11 +147,11 @@ PROP = {
                 "reached close(doneCh); the teardown model with the parameters read from the source must predict the same; "
                 "non-trivial = a delay returned "
                 "after an error, a BackoffUntil run, a finished watchdog / re-login scenario, a scenario with "
-                "registrations or reloads; distinct = distinct (op line, result) pairs; harness/corpus/wait holds op "
+                "registrations or reloads, a configuration text loaded; distinct = distinct (op line, result) pairs; harness/corpus/wait holds op "
                 "sequences the generator found against seeded defects",
         "trusted": COMMON_TRUST + [
-            "models Frp/Model/Backoff.lean, Watchdog.lean, Reconnect.lean, SessEnd.lean, Rereg.lean, Dispatch.lean, Liveness.lean, "
-            "Teardown.lean written by hand; tied by "
+            "models Frp/Model/Backoff.lean, Watchdog.lean, Reconnect.lean, SessEnd.lean, SessLive.lean, HbConf.lean, Rereg.lean, "
+            "Dispatch.lean, Liveness.lean, Teardown.lean written by hand; tied by "
             "the wait engine (relational: every observed delay / closure time must lie in the model's interval; "
             "registrations seen / re-registrations accepted must equal the model's)",
             "the parameters `async` (SessEnd), `early` (Rereg) and `asyncReq` (Dispatch) are read from the source by "
@@ -133,6 +168,18 @@ PROP = {
             "during pm.Close()) are read from the source by the same generator; Teardown abstracts a wrapper to its check "
             "goroutine and the two locks to `held`; pm.mu (held by Manager.Close for the whole walk) is not modelled: nobody "
             "else needs it before doneCh is closed; visitors (vm.Close) are not modelled",
+            "SessLive's parameter `closeWaits` is read from the source by translate/gen_sessfacts_live.go on every run: the blocking "
+            "constructs (channel receive, select, range over a channel, calls named Wait / WaitClosed / Join / Sleep / Acquire; "
+            "closures called in place included, `go` statements excluded) in every method `Close` of server/proxy/*.go and in "
+            "(*Control).worker after `<-Done()` (the drain of the just-closed work-connection pool excepted); a wait hidden behind "
+            "another method name or in a callee of Close (closeFn() of the http proxies, ports.Manager.Release, the nat-hole "
+            "controller) is not seen; mutex acquisitions are not counted",
+            "the statements of (*ClientTransportConfig).Complete / (*ServerTransportConfig).Complete that assign a heartbeat field "
+            "are extracted in source order with the conditions they sit under and INTERPRETED in Lean (HbConf.interp: only "
+            "`x = util.EmptyOr(x, literal)` under `if lo.FromPtr(c.TCPMux)` / its else / unconditionally has an interpretation); "
+            "code_client_complete / code_server_complete prove interpretation = hand-written model for all inputs; every other "
+            "assignment to / address-of a field named HeartbeatInterval / HeartbeatTimeout in pkg/config, client, server, cmd is "
+            "listed (hbWriters) and must be a field-to-field copy; util.EmptyOr itself and a write through reflection are trusted",
             "Dispatch: the handlers of NewProxyResp / NatHoleResp / Pong are modelled as returning at once (the translator "
             "checks that their bodies contain no read from / dial to the peer; calls they make into the proxy manager and "
             "the message transporter are not followed)",
@@ -149,6 +196,17 @@ PROP = {
             "the theorem is parametric in P",
             "'all resources released' is modelled and observed for the session's proxies (remote ports, proxy names): "
             "after the session ended a fresh session registers the same names/ports; the other tables are C10's subject",
+            "OBSERVATION (frp as it is, live_conns_survive_witness): a user connection bridged to a work connection of a silent "
+            "peer is NOT ended by the teardown (tcpMux off: always; tcpMux on: unless the TCP connection itself ends) -- it stays "
+            "open, served by nobody, until the user leaves; names, ports and table entries are released regardless.  The check "
+            "records it (lv=K/B/O) and does not demand the connections to be closed",
+            "SessLive: under `closeWaits` the walk is kept disabled as a whole (what a stuck walk released before the proxy it is "
+            "stuck at depends on Go's map order); Control.CloseProxy's own call of pxy.Close() is not refined; user connections "
+            "are tcp users of tcp proxies (the common listener handler); 1-3 of them, on one proxy",
+            "written settings: the real-time scenarios use intervals / timeouts of 1-5 s (defaults 30 / 90 are only watched for "
+            "2.5 s: still open); a raised timeout whose excess over the written one is below the checker period + slack "
+            "(e.g. 2 / 3 raised to 4) can pass the clock but not hbcfg / code_client_complete; zero is never written (it means "
+            "'not written'); command-line flags do not carry the two settings",
             "the session-end model abstracts a remote port to the proxy name and other sessions / the OS to an `extFail` "
             "input; server plugins and gates only delay a registration, they never reject it in the generated scenarios",
             "a held registration is the last thing the scripted peer sends: pings queued behind a blocked read loop are "
@@ -189,7 +247,8 @@ META = {
                      "(small-step, all interleavings + prompt read loop), the client teardown (small-step, all interleavings), the "
                      "server session-end (small-step, all interleavings) and the client re-registration "
                      "models; go/ast extraction of the structural facts (handler registration modes, snapshot point, every store of "
-                     "lastPing / lastPong with its handler and position, the shape of the teardown path); relational differential correspondence with the real "
+                     "lastPing / lastPong with its handler and position, the shape of the teardown path, the blocking constructs of every "
+                     "server proxy Close, the heartbeat statements of the two Complete methods -- interpreted in Lean); relational differential correspondence with the real "
                      "wait.fastBackoffImpl, wait.BackoffUntil, server.Control and client.Control/Service on loopback",
         "text": "Proof (partial): for every option set with Duration > 0, Factor = 0 or >= 1 and positive fast-retry delay, "
                 "every success/error history, every clock and every jitter draw, each delay the reconnect back-off hands "
@@ -219,12 +278,25 @@ META = {
                 "watchdog and worker() a torn-down server session holds no remote port and no proxy name, registrations in "
                 "flight at the end of the connection included, and the teardown is reached in <= 6 own steps once the "
                 "connection ended; for every history of reloads, connection losses, refused and successful logins a live "
-                "client control runs exactly the stored configuration and a login announces every configured proxy once. "
+                "client control runs exactly the stored configuration and a login announces every configured proxy once; "
+                "with ANY number of user connections bridged to work connections of a silent peer -- users connecting, staying "
+                "and leaving in any order -- the session part of the state is the one of the session-end model "
+                "(live_refines), so a torn-down session holds nothing whatever traffic it carried, and from every state whose "
+                "connection has ended the teardown is reached in <= 6 own steps by a schedule in which no user connection ends "
+                "(teardown_reached_live), whereas with a Close that waits for its connection handlers one staying user keeps "
+                "name, port and session for ever (close_waits_stuck, witness; which of the two the source is: "
+                "code_close_no_wait); Complete never changes a written interval / timeout (complete_keeps_written), the "
+                "watchdog a configuration runs is the one its written values promise (promise_is_completed), a silent server "
+                "is detected in (last + t, last + t + P] with t the timeout AS WRITTEN for every positive pair and either tcpMux "
+                "setting (detect_written), and the statements of the two Complete methods found in the source compute exactly "
+                "the model (code_client_complete, code_server_complete; a timeout raised to two intervals has no "
+                "interpretation and is late by up to an interval: raised_timeout_late_witness). "
                 "Kernel-checked, axioms propext/Classical.choice/Quot.sound only. Tied to the code by a go/ast extraction of "
                 "the handler registration modes (server and client) and the snapshot point, and by ~5k (quick) generated "
                 "operations per run on the real functions, including real frps/frpc watchdog, registration-in-flight, "
-                "re-login, reload-during-outage, idle-pooled-work-connection, busy-dead-peer and lost-session teardown (1-180 "
-                "proxies, with and without health checks) scenarios with 1-3 s timeouts.",
+                "re-login, reload-during-outage, idle-pooled-work-connection, busy-dead-peer, dead-peer-with-live-user-connections "
+                "(tcpMux off / on), written-settings (real loader, four formats) and lost-session teardown (1-180 "
+                "proxies, with and without health checks) scenarios with 1-5 s timeouts.",
         "note": "Partial: timers, the scheduler and the network are sampled, not proved. KNOWN FINDING "
                 "C14-client-teardown-sendch-overflow (frpc with > 100 proxies never reconnects after a connection loss; repair in "
                 "hooks/C14-fix-teardown-drain.patch). The code allows up to "
